@@ -42,6 +42,7 @@ structure Access where
 inductive Err
   | lpc (msg : String)    -- LPC runtime error raised through error()
   | ub (site : String)    -- C undefined behaviour: signed overflow at this site
+  | fatal (msg : String)  -- the driver calls fatal(): the process ends
   deriving Repr, DecidableEq
 
 /-- what the opcode leaves as its value (interpreted by the driver into the harness's value summary) -/
